@@ -132,7 +132,8 @@ checks["C13"] = dict(
 checks["C05"] = dict(
     runs=dict(
         quick=[H("HarnessSeq", {"K": 2, "bmax": 100}, shards=4, depth=4),
-               H("HarnessSeq", {"K": 3, "bmax": 100, "ops": 4, "endreopen": 1}, shards=14, depth=5),
+               H("HarnessSeq", {"K": 3, "bmax": 100, "ops": 4}, shards=14, depth=5),
+               H("HarnessSeq", {"K": 3, "bmax": 100, "ops": 4, "endreopen": 1, "maxdata": 0}, shards=14, depth=5),
                H("HarnessSeq", {"K": 2, "bmax": 100, "seg": 64}, shards=4, depth=4),
                H("HarnessSeq", {"K": 3, "bmax": 1, "seg": 100, "rotmode": 1, "ops": 4}, shards=14, depth=5)],
         thorough=[H("HarnessSeq", {"K": 3, "bmax": 100}, shards=28, depth=5),
@@ -141,7 +142,7 @@ checks["C05"] = dict(
                   H("HarnessSeq", {"K": 2}, shards=28, depth=5, timeout="30m"),
                   H("HarnessSeq", {"K": 4, "bmax": 100, "seg": 100, "ops": 4}, shards=56, depth=6, timeout="40m")]),
     required_reach=["seq-done", "append1", "append2", "delete", "reopen", "bad-append", "probe-present", "probe-absent", "final-reopen"],
-    bounds=dict(quick='all sequences of K<=2 operations from {append 1, append 2, bad append (non-contiguous / internally non-consecutive, offending index 64-bit symbolic), DeleteRange(min,max), Close+Open} with 256- and 64-byte segments, and all sequences of K=3 without the bad append, each followed by one more Close/Open after which First/Last and a second symbolic probe are compared again; start index symbolic in [1,100], min/max/probe index unconstrained 64-bit; Term<128, payload 0..1 bytes; plus K=3 from start index 1 with the background rotation left pending or run after each call (so Close can meet a pending rotation and the next Open completes it)',
+    bounds=dict(quick='all sequences of K<=2 operations from {append 1, append 2, bad append (non-contiguous / internally non-consecutive, offending index 64-bit symbolic), DeleteRange(min,max), Close+Open} with 256- and 64-byte segments, and all sequences of K=3 without the bad append, and once more (empty payloads) each followed by a further Close/Open after which First/Last and a second symbolic probe are compared again; start index symbolic in [1,100], min/max/probe index unconstrained 64-bit; Term<128, payload 0..1 bytes; plus K=3 from start index 1 with the background rotation left pending or run after each call (so Close can meet a pending rotation and the next Open completes it)',
                 thorough='K=3 with the full alphabet, 64-byte segments, start index over the whole 64-bit range (all varint widths) with K=2, K=4 without bad appends'),
     assumptions=COMMON_ASSUME + ["appended indexes do not wrap (start index <= 2^64-17)"],
     outside=["sequences longer than K", "index wrap at 2^64"],
@@ -259,12 +260,12 @@ checks["C17"] = dict(
         quick=[H("HarnessDetect", {}, pkg="harness/hverif", shards=4, depth=4), H("HarnessRetry", {}, pkg="harness/hverif"), H("HarnessFnvStep", {"realfnv": 1}, pkg="harness/hverif"),
                H("HarnessNoFalseAlarm", {"scenario0": 3, "scenarios": 1}, pkg="harness/hverif", shards=4, depth=4), H("HarnessNoFalseAlarm", {"scenario0": 5, "scenarios": 2}, pkg="harness/hverif", shards=4, depth=4),
                H("HarnessNoFalseAlarm", {"scenario0": 0, "scenarios": 2}, pkg="harness/hverif", shards=4, depth=4),
-               H("HarnessHistory", {"K": 4}, pkg="harness/hverif", shards=14, depth=3)],
+               H("HarnessHistory", {"K": 4, "mutate": 1}, pkg="harness/hverif", shards=14, depth=3)],
         thorough=[H("HarnessDetect", {}, pkg="harness/hverif", shards=4, depth=4), H("HarnessRetry", {}, pkg="harness/hverif"), H("HarnessFnvStep", {"realfnv": 1}, pkg="harness/hverif"),
                   H("HarnessNoFalseAlarm", {"scenario0": 3, "scenarios": 1}, pkg="harness/hverif", shards=4, depth=4), H("HarnessNoFalseAlarm", {"scenario0": 5, "scenarios": 2}, pkg="harness/hverif", shards=4, depth=4),
-                  H("HarnessHistory", {"K": 5}, pkg="harness/hverif", shards=28, depth=4, timeout="30m")]),
-    required_reach=["history-checked", "history-report", "leader-restart", "detect-checked", "in-flight", "at-rest", "retry-checked", "fnv-step-injective", "leader-change", "truncation-at-range-start"],
-    bounds="range of 2..3 entries + checkpoint; one mutation at every position (first .. the checkpoint's predecessor) of Term (any other 64-bit value), first Data byte (any other value), Type (any other non-checkpoint value) or an added Extensions byte; injected before the follower's StoreLogs (in flight) or on read (at rest); every batch split; plus: a failed write retried unaltered is not blamed; plus: a follower that truncated a conflicting tail (any suffix length, and exactly the entry its running sum starts at) and stored the new leader's entries unaltered is not blamed for in-flight corruption, nor is a follower of a leader whose middleware restarted mid-interval, nor any node in any history of K=4 (thorough: 5) steps of the two-node history exploration (see C16) in which nothing is ever altered; plus: one step of the real fnv1a.AddUint64/AddBytes64 is injective in state and input (bit-precise, z3)",
+                  H("HarnessHistory", {"K": 5, "mutate": 1}, pkg="harness/hverif", shards=28, depth=4, timeout="40m")]),
+    required_reach=["history-checked", "history-report", "history-altered-in-flight", "history-divergence-reported", "leader-restart", "detect-checked", "in-flight", "at-rest", "retry-checked", "fnv-step-injective", "leader-change", "truncation-at-range-start"],
+    bounds="range of 2..3 entries + checkpoint; one mutation at every position (first .. the checkpoint's predecessor) of Term (any other 64-bit value), first Data byte (any other value), Type (any other non-checkpoint value) or an added Extensions byte; injected before the follower's StoreLogs (in flight) or on read (at rest); every batch split; plus: a failed write retried unaltered is not blamed; plus: a follower that truncated a conflicting tail (any suffix length, and exactly the entry its running sum starts at) and stored the new leader's entries unaltered is not blamed for in-flight corruption, nor is a follower of a leader whose middleware restarted mid-interval, nor any node in any history of K=4 (thorough: 5) steps of the two-node history exploration (see C16) in which nothing is ever altered; plus, in the same exploration, at most one replicated entry altered in flight (one Data byte, any other value) at any replication step of any history: every later report of a node whose copy of the range differs from what the checkpoint's writer summed - and that did verify the range - carries ErrChecksumMismatch, every other report none; plus: one step of the real fnv1a.AddUint64/AddBytes64 is injective in state and input (bit-precise, z3)",
     assumptions=VERIF_ASSUME,
     outside=["length-changing mutations of Data and swapped entries (reduce to hash collisions of different-length sequences: excluded by the ideal-hash axiom, not decided bit-precisely)", "mutation of Index (memstore rejects non-contiguous entries)", "the documented exemption of the bootstrap configuration entry at index 1"],
     level_text="Bounded symbolic execution of the real verifier with one symbolic mutation; the ideal-hash layer decides the protocol logic exactly, the per-step injectivity lemma is discharged on the real fnv1a code",
@@ -302,8 +303,10 @@ checks["C09"] = dict(
                H("HarnessFault", {"K": 2, "F": 1, "seg": 64, "audit": 1}, shards=14, depth=7),
                H("HarnessFault", {"K": 2, "F": 1, "pre": 2, "seg": 256, "audit": 1}, shards=14, depth=7),
                H("HarnessCrash", crash(1, 2, opset=1, usability=0, audit=1), shards=14, depth=8),
-               H("HarnessSeq", {"K": 3, "bmax": 1, "seg": 100, "ops": 4, "audit": 1}, shards=14, depth=5)],
+               H("HarnessSeq", {"K": 2, "bmax": 1, "seg": 100, "ops": 4, "audit": 1}, shards=8, depth=4)],
         thorough=[H("HarnessMetaRecord", {}, pkg="harness/hfs"),
+                  H("HarnessSeq", {"K": 3, "bmax": 1, "seg": 100, "ops": 4, "audit": 1}, shards=14, depth=5),
+                  H("HarnessCrash", crash(1, 2, opset=1, usability=0, audit=1), shards=14, depth=8),
                   H("HarnessFault", {"K": 2, "F": 1, "seg": 64}, shards=14, depth=7),
                   H("HarnessFault", {"K": 2, "F": 1, "pre": 2, "seg": 256}, shards=14, depth=7),
                   H("HarnessFault", {"K": 2, "F": 2, "seg": 64}, shards=56, depth=7, timeout="40m"),
